@@ -18,16 +18,22 @@ WRITE_ROOT = re.compile(
 TIME_ROOT = re.compile(r"^(<)?types::DateTime(::| as )")
 
 
+def _api(f):
+    """entry points are what a user (or std, through a trait) can call: public functions and trait-impl methods; private helpers are
+    analysed where they are called from (after inlining of unknown helpers)"""
+    return f.vis == "Public" or bool(f.impl_trait)
+
+
 def is_read_root(f):
-    return bool(READ_ROOT.search(f.path))
+    return bool(READ_ROOT.search(f.path)) and _api(f)
 
 
 def is_write_root(f):
-    return bool(WRITE_ROOT.search(f.path))
+    return bool(WRITE_ROOT.search(f.path)) and _api(f)
 
 
 def is_time_root(f):
-    return bool(TIME_ROOT.search(f.path))
+    return bool(TIME_ROOT.search(f.path)) and _api(f)
 
 
 def load_reviewed():
@@ -39,7 +45,6 @@ def load_reviewed():
 def panic_rule(ctx, rep, rule, facts, root_pred, void_rules=(), only=None):
     """Evaluate the inventory for every function reachable from the entry set.
     void_rules: names of `discharged_by` rules that FAILED in this run -> entries relying on them are void."""
-    facts = getattr(facts, "orig", facts)   # the inventory is taken on the original bodies (keys name the function a site is written in)
     reviewed = load_reviewed()
     by_suffix = {}
     for k_, e_ in reviewed.items():
@@ -51,11 +56,17 @@ def panic_rule(ctx, rep, rule, facts, root_pred, void_rules=(), only=None):
     rep.count("reachable_functions", len(reach))
     nsites = 0
     used = set()
+    present_keys = set()
+    allsites = {}
+    for f in facts.fns:
+        if f.path in reach:
+            allsites[f.path] = enumerate_sites(facts, f)
+            present_keys |= {s_.key for s_ in allsites[f.path]}
     for f in facts.fns:
         if f.path not in reach:
             continue
         # derive(Debug/Clone/PartialEq) bodies are compiler-written and contain no sites of interest
-        sites = enumerate_sites(facts, f)
+        sites = allsites[f.path]
         for s in sites:
             if only and not only(s):
                 continue
@@ -73,6 +84,20 @@ def panic_rule(ctx, rep, rule, facts, root_pred, void_rules=(), only=None):
                 cands = by_suffix.get(s.key.split("|", 1)[1].split("#")[0], [])
                 if len(cands) == 1 and cands[0]["key"] not in used:
                     ent = cands[0]
+            if ent is None:
+                # the site was re-spelled (named constant, conversion function instead of cast, temporaries): same function, same
+                # kind, and an operand signature that overlaps strongly with exactly one still unmatched reviewed entry
+                fnk = s.key.split("|")[0] + "|" + s.key.split("|")[1] + "|"
+                mine = set(re.split(r"[,;:]", s.key.split("|", 2)[2].split("#")[0])) - {""}
+                best = []
+                for k_, e_ in reviewed.items():
+                    if k_.startswith(fnk) and k_ not in used and k_ not in present_keys:
+                        theirs = set(re.split(r"[,;:]", k_.split("|", 2)[2].split("#")[0])) - {""}
+                        sim = len(mine & theirs) / max(1, len(mine | theirs))
+                        best.append((sim, e_))
+                best.sort(key=lambda x: -x[0])
+                if best and best[0][0] >= 0.5 and (len(best) == 1 or best[0][0] > best[1][0]):
+                    ent = best[0][1]
             if ent is not None:
                 used.add(ent["key"])
                 by = ent.get("discharged_by")
